@@ -1109,12 +1109,14 @@ impl ConfigState {
             .fingerprint()
             .map_err(StateError::AddCertificate)?;
 
-        let entry = self.certificates.entry(add.address.into()).or_default();
-
+        // Resolve the names before creating the address bucket: a certificate
+        // that fails here must not leave an empty bucket behind.
         let mut add = add.clone();
         add.certificate
             .apply_overriding_names()
             .map_err(StateError::AddCertificate)?;
+
+        let entry = self.certificates.entry(add.address.into()).or_default();
 
         if entry.contains_key(&fingerprint) {
             info!(
